@@ -203,13 +203,25 @@ func VerifC12Fault() {
 	w := verifkv.NewWorld()
 	s := vC12Store(w, vC12Acl(list.AclPermissionsWriter))
 	rt.Assert(s.SetRaw(ctx, vC12Value("k", "dev1", "alice", "acl0", 5)) == nil, "setup")
-	nv := 1 + rt.Choose(2)
+	// batch shapes: one value; a second slot; the same slot twice (ascending / descending); same slot twice + a second slot
+	shape := rt.Choose(5)
 	vals := []*spacesyncproto.StoreKeyValue{vC12Value("k", "dev1", "alice", "acl0", 9)}
-	if nv == 2 {
+	want := int64(9)
+	switch shape {
+	case 1:
 		vals = append(vals, vC12Value("j", "dev1", "alice", "acl0", 3))
+	case 2:
+		vals = append(vals, vC12Value("k", "dev1", "alice", "acl0", 12))
+		want = 12
+	case 3:
+		vals = []*spacesyncproto.StoreKeyValue{vC12Value("k", "dev1", "alice", "acl0", 12), vals[0]}
+		want = 12
+	case 4:
+		vals = append(vals, vC12Value("j", "dev1", "alice", "acl0", 3), vC12Value("k", "dev1", "alice", "acl0", 12), vC12Value("j", "dev1", "alice", "acl0", 4))
+		want = 12
 	}
 	w.Calls = 0
-	w.FailAt = rt.Choose(5)
+	w.FailAt = rt.Choose(8)
 	err := s.SetRaw(ctx, vals...)
 	faulted := w.Faulted
 	w.FailAt = -1
@@ -239,7 +251,10 @@ func VerifC12Fault() {
 		// and the same values are accepted on retry
 		rt.Assert(s.SetRaw(ctx, vals...) == nil, "retry-after-fault-succeeds")
 		t, _ := vC12StoredTs(w, "k-dev1")
-		rt.Assert(t == 9, "retry-stores-the-value")
+		rt.Assert(t == want, "retry-stores-the-value")
+	} else {
+		t, _ := vC12StoredTs(w, "k-dev1")
+		rt.Assert(t == want, "batch-keeps-greatest-of-repeated-slot")
 	}
 	rt.Reach("fault-checked")
 }
